@@ -125,6 +125,9 @@ class RemoteServer():
                                 continue
 
                             ctx.call(cli)
+                            # the context process works with its own copy of the socket; ours would only keep the
+                            # connection open (and the client waiting for ever) if the worker could not be created
+                            cli.close()
                         else:
                             logger.debug('Waiting for the RemoteWorker object...')
                             try:
